@@ -20,6 +20,10 @@ def displacement_field(rng, kind, J, bound):
         a = (rng.normal() + 1j * rng.normal()) * 0.3 * bound / ext      # small rotation + scaling
         t = (rng.normal() + 1j * rng.normal()) * 0.3 * bound
         d = a * (J - ctr) + t
+    elif kind == "drift":
+        # the whole tissue drifts by nearly the bound in one direction, plus a small jitter
+        th = rng.uniform(0, 2 * math.pi)
+        d = 0.9 * bound * np.exp(1j * th) * np.ones(n) + (rng.random(n) * 0.04 * bound) * np.exp(2j * math.pi * rng.random(n))
     else:  # flow
         k = 2 * math.pi / max(np.ptp(J.real), np.ptp(J.imag)) * rng.uniform(0.5, 1.5)
         ph = rng.uniform(0, 6.28)
